@@ -49,7 +49,8 @@ MANIFEST = {
     "`range(n)` comptime is annotated with size n and yields exactly 0..n-1 for all n < 2^63 (`range_comptime_size`). The full "
     "statement is false of the code and the negations are proved: whenever `start + len*step` overflows an extra wrapped value "
     "is yielded (`range_wrong_on_overflow`, witness `range_overflow_counterexample`, D12) and a comptime n >= 2^63 yields "
-    "nothing (`range_comptime_large_empty`). Tie: the real function bodies from /repo executed under CPython on Int64 shims vs "
+    "nothing (`range_comptime_large_empty`). The specification list is characterised independently (`pyRange_mem_iff`, "
+    "`pyRange_getElem`) and compared with CPython's range on every case. Tie: the real function bodies from /repo executed under CPython on Int64 shims vs "
     "the model vs CPython's range (quick ~2500 calls, thorough ~10^5 + exhaustive small grid); overload resolution and static "
     "sizes read from the real type checker on probe programs.",
     "level_note": "Partial: the 3-argument theorem needs the no-overflow hypothesis (D12 known finding; hypothesis proved necessary). "
@@ -672,7 +673,13 @@ def _evaluate(ctx, real, reqs, count=True):
                  "overflow_class": _overflow_class(req)},
             )
         if r != m:
-            _broke(ctx, f"correspondence Model/Range.lean vs std/iter.py on `{line}` (real=`{r}` model=`{m}`)")
+            if orc is None and req[3] == 0:
+                # step = 0 is outside the property (Python raises ValueError) and outside every theorem's
+                # hypotheses: a divergence there is recorded, never an alarm
+                ctx.extra["step0_divergence"] = ctx.extra.get("step0_divergence", 0) + 1
+                ctx.extra.setdefault("step0_divergence_example", f"{line}: real=`{r}` model=`{m}`")
+            else:
+                _broke(ctx, f"correspondence Model/Range.lean vs std/iter.py on `{line}` (real=`{r}` model=`{m}`)")
 
 
 def _static_probe(ctx, real, ns):
@@ -726,8 +733,8 @@ def search(ctx, why):
         # vlib only reports an unexplained break when no known finding was hit; the D12 witness is
         # always hit here, so report the break explicitly.
         ctx.violation(
-            "broken:" + "|".join(ctx.broken),
-            "proof obligation or correspondence no longer checks: " + "; ".join(ctx.broken),
+            "broken:" + "|".join(b[:160] for b in ctx.broken[:2]),
+            "proof obligation or correspondence no longer checks: " + "; ".join(ctx.broken[:4]),
             {"broken": list(ctx.broken), "build_log_tail": ctx.build_log[-4000:] if not ctx.build_ok else ""},
             found_input=False,
         )
